@@ -29,7 +29,7 @@ Definition enc_event (e : event) : list Z :=
   end.
 Definition is_log (e : event) : bool := match e with EvLog _ _ => true | _ => false end.
 
-Definition fail_code (f : fail) : Z := match f with Revert => 0 | OutOfFuel => 1 | Stuck => 2 end.
+Definition fail_code (f : fail) : Z := match f with Revert => 0 | RevertMsg _ => 0 | OutOfFuel => 1 | Stuck => 2 end.
 
 (* full = also the non-log events *)
 Definition enc_result (full : bool) (r : ext_result) : list Z :=
@@ -38,6 +38,7 @@ Definition enc_result (full : bool) (r : ext_result) : list Z :=
       let t' := if full then t else filter is_log t in
       1 :: enc_value v ++ Z.of_nat (length t') :: flat_map enc_event t'
   | XRevert => [0]
+  | XRevertMsg k => [3; Z.of_nat k]
   | XError f => [2; fail_code f]
   end.
 
